@@ -8,6 +8,7 @@ import (
 	"regexp"
 	"strconv"
 	"time"
+	"unicode/utf8"
 )
 
 var (
@@ -84,7 +85,15 @@ func newIndexedField(value interface{}, objid uint64) (*indexedField, error) {
 		value = float64(k)
 	case time.Time:
 		value = k.UTC().UnixNano()
-	case string, float64, uint64, int64:
+	case string:
+		// what is compared is what the files hold: encoding/json writes
+		// the replacement character for every byte which is not valid
+		// UTF-8, as the conversion to runes does
+		if !utf8.ValidString(k) {
+			k = string([]rune(k))
+		}
+		value = k
+	case float64, uint64, int64:
 		value = k
 	default:
 		err = fmt.Errorf("%w %T", ErrUnknownKeyType, value)
